@@ -586,3 +586,6 @@ def check(ctx):
     ctx.rule("R12", "whatever the number of replies: the endpoint's receive queue hands the hello consumer every reply that arrived, oldest first, also when a hundred are waiting (the consumer takes one per wake-up) - a bounded container behind the queue drops the oldest waiting replies silently, and every re-broadcast refills it with the same tail of spas: the others are never listed (C07.R3's queue model borrowed)")
     from .c07 import nothing_queued_is_lost as _nql15
     _nql15(ctx.borrowed("R12", "C07"), repo, "R3")
+    ctx.rule("R13", "every reply is claimed, whatever the spa is called: for names without, with one and with several `|`, empty and with Latin-1 letters, the reply the builder makes is accepted by a fresh hello handler and decodes to the identifier and name it was built from - on concrete bytes, so the frame test may be written any way (a pattern that allows one separator leaves `Hot|Tub` unclaimed: never listed, and on the awaitable locator every reply queued behind it is lost)")
+    from .c04 import hello_replies_are_claimed as _hrc15
+    _hrc15(ctx, repo, "R13")
